@@ -4,6 +4,7 @@ import (
 	"bytes"
 	"fmt"
 	"strings"
+	"time"
 
 	"github.com/yuin/goldmark/text"
 )
@@ -94,7 +95,9 @@ func c18Run(c *Ctx, st *rdState, nOps int, stream string) {
 	}
 	panicked := false
 	for o := 0; o < nOps && !panicked; o++ {
-		func() {
+		c.watchdog(5*time.Second, "reader-hang", func() interface{} {
+			return map[string]interface{}{"source": q(st.src), "script": strings.Join(script, " "), "block": st.isBlock()}
+		}, func() {
 			defer func() {
 				if r := recover(); r != nil {
 					panicked = true
@@ -296,7 +299,7 @@ func c18Run(c *Ctx, st *rdState, nOps int, stream string) {
 			}
 			script = append(script, op)
 			obs = append(obs, fmt.Sprintf("%s@%d,%s", out, l1, segStr(p1)))
-		}()
+		})
 	}
 	sc := strings.Join(script, " ")
 	if st.isBlock() {
